@@ -61,13 +61,14 @@ def rcpOfWire (w : Wire) : Recipient := {
 def jweToWire (m : JweMsg) : Wire := .obj [
   ("unprotected", optHdrToWire m.unprotected), ("protected", optHdrToWire m.prot),
   ("b64protected", .str m.b64protected), ("iv", .str m.iv), ("ciphertext", .str m.ciphertext),
-  ("tag", .str m.tag), ("recipients", .arr (m.recipients.map rcpToWire))]
+  ("tag", .str m.tag), ("recipients", .arr (m.recipients.map rcpToWire)), ("aad", .str m.aad)]
 def jweOfWire (w : Wire) : JweMsg := {
   unprotected := optHdrOfWire ((w.get? "unprotected").getD .none),
   prot := optHdrOfWire ((w.get? "protected").getD .none),
   b64protected := (getStr? w "b64protected").getD "", iv := (getStr? w "iv").getD "",
   ciphertext := (getStr? w "ciphertext").getD "", tag := (getStr? w "tag").getD "",
-  recipients := ((w.get? "recipients").getD .none).asArr.map rcpOfWire }
+  recipients := ((w.get? "recipients").getD .none).asArr.map rcpOfWire,
+  aad := (getStr? w "aad").getD "" }
 
 def mapW {α} (f : α → Wire) (p : PO α) : Prog Wire := (do let a ← p; pure (f a) : PO Wire).toOp
 def strs (l : List String) : Wire := .arr (l.map Wire.str)
